@@ -27,6 +27,7 @@ pub fn world_for(prop: &str) -> Option<Box<dyn World>> {
         "C15" => Some(Box::new(XmlWorld { prop: XProp::C15 }) as Box<dyn World>),
         "C18" => hx("C18", HProp::C18, XProp::C18),
         "C19" => h(HProp::C19),
+        "C20" => Some(Box::new(simcore::rcdom_world::RcDomWorld) as Box<dyn World>),
         _ => None,
     }
 }
